@@ -379,6 +379,12 @@ func normExpr(fset *token.FileSet, file string, e ast.Expr, info *types.Info) st
 			return true
 		}
 		obj, _ := info.Uses[id].(*types.Var)
+		if obj != nil && obj.IsField() {
+			if old, ok := fieldObjAlias[obj]; ok {
+				reps = append(reps, rep{tf.Offset(id.Pos()) - start, tf.Offset(id.End()) - start, old})
+			}
+			return true
+		}
 		if obj == nil || obj.IsField() || obj.Pkg() == nil || obj.Parent() == obj.Pkg().Scope() {
 			return true
 		}
@@ -424,6 +430,12 @@ func normExprX(fset *token.FileSet, file string, e ast.Expr, info *types.Info, a
 			return true
 		}
 		obj, _ := info.Uses[id].(*types.Var)
+		if obj != nil && obj.IsField() {
+			if old, ok := fieldObjAlias[obj]; ok {
+				reps = append(reps, rep{tf.Offset(id.Pos()) - start, tf.Offset(id.End()) - start, old})
+			}
+			return true
+		}
 		if obj == nil || obj.IsField() || obj.Pkg() == nil || obj.Parent() == obj.Pkg().Scope() {
 			return true
 		}
